@@ -127,7 +127,7 @@ def describe_real(port, io='input'):
     if io == 'input':
         if port.has_default():
             default = port.default
-            out['default'] = default() if callable(default) else default
+            out['default'] = default() if callable(default) else copy.deepcopy(default)
         else:
             out['default'] = None
     return out
